@@ -15,7 +15,7 @@ RULE = ("Every helper of nflows.utils is called on (a) an exhaustive grid: all s
         "numpy reference written from the docstring and every tensor argument is compared bit-for-bit with a pre-call "
         "clone. Non-trivial: the tensor has >= 2 elements and the integer argument is >= 2, or (predicates) the argument is "
         "not a plain positive int, or (searchsorted) an input sits exactly on a knot. List arguments (split_leading_dim shape) must come back "
-        "unchanged. Distinct = distinct case JSON.")
+        "unchanged. sum_except_batch also on int64/int32/uint8/bool tensors (torch.sum's promotion: exact integer sums). Distinct = distinct case JSON.")
 ASSUMPTIONS = ["numpy repeat/reshape/sum/cbrt/slogdet/searchsorted are correct reference models",
                "searchsorted inputs within eps of the last knot but not equal to it are unspecified and not generated"]
 EXHAUSTIVE = {"quick": True, "thorough": True}
